@@ -3,7 +3,7 @@ import glob, json, os, random
 from harness import tlc, engine
 from harness.common import Machinery, REPO
 from checks.c04_driver import RECEIVERS
-from checks.c13 import judge_retry
+from checks.c13 import judge_retry, tlc_run_retry
 
 MC_EMIT_CFG = "INIT McInit\nNEXT McNext\nCONSTRAINT McEmit\nINVARIANT McLaws\nINVARIANT McPrefix\nCHECK_DEADLOCK FALSE\n"
 MC_CFG = "INIT McInit\nNEXT McNext\nINVARIANT McLaws\nINVARIANT McPrefix\nCHECK_DEADLOCK FALSE\n"
@@ -80,7 +80,7 @@ def run(rep):
         env = {"TIER": rep.tier, "MAXLEN": maxlen}
         if len(pf) == 1:
             env["PROFILE"] = pf
-        res = tlc.run(rep.pid, "C04", MC_EMIT_CFG, env=env, timeout=1700, tag="mc_emit_" + pf)
+        res = tlc_run_retry(rep, "C04", MC_EMIT_CFG, env=env, timeout=1700, tag="mc_emit_" + pf)
         rep.add_tlc("LexerFSM laws + enumeration, alphabet %s, length <= %d" % (pf, maxlen), res)
         cls_strings = sorted({tuple(r["cls"]) for r in res.records if r.get("kind") == "cls"})
         res.records, res.stdout = None, ""
@@ -99,7 +99,7 @@ def run(rep):
                        "cases": ncls, "complete": True})
     if not quick:
         # the deep run: length 6 on the comment / string / regex alphabet (no emission)
-        r6 = tlc.run(rep.pid, "C04", MC_CFG, env={"TIER": rep.tier, "MAXLEN": 6, "PROFILE": "A"}, timeout=2400, tag="mc_deep")
+        r6 = tlc_run_retry(rep, "C04", MC_CFG, env={"TIER": rep.tier, "MAXLEN": 6, "PROFILE": "A"}, timeout=2400, tag="mc_deep")
         rep.add_tlc("LexerFSM laws, alphabet A, length <= 6", r6)
         # longer seeded strings over the same alphabets
         alph = {"A": ["sp", "nl", "g", "1", "q", "Q", "bs", "/", "*", "[", "]", "+", "#"],
@@ -115,7 +115,7 @@ def run(rep):
         rep.spaces.append({"space": "seeded class strings of length 6..12", "cases": len(ecases), "complete": False})
         process(rep, rng, ecases, stats)
     # ---- A2. token sequences over the expression vocabulary: acceptor of JsGrammar (S->C) -----------------------------
-    tres = tlc.run(rep.pid, "C04", TOK_CFG, env={"TIER": rep.tier}, timeout=1200, tag="toks")
+    tres = tlc_run_retry(rep, "C04", TOK_CFG, env={"TIER": rep.tier}, timeout=1200, tag="toks")
     rep.add_tlc("JsGrammar.ParseStmts acceptor laws + enumeration of token sequences", tres)
     seqs = sorted({tuple(r["cls"]) for r in tres.records if r.get("kind") == "toks"})
     tres.records, tres.stdout = None, ""
@@ -127,7 +127,7 @@ def run(rep):
         process(rep, rng, [{"kind": "src", "src": " ".join(t), "toks": list(t), "what": "token sequence"} for t in seqs[lo:lo + 200000]], stats)
     del seqs
     # ---- B. the built-in grid: argument vectors enumerated by TLC, functions discovered at run time -----------------
-    gres = tlc.run(rep.pid, "C04", GRID_CFG, env={"TIER": rep.tier}, timeout=600, tag="grid")
+    gres = tlc_run_retry(rep, "C04", GRID_CFG, env={"TIER": rep.tier}, timeout=600, tag="grid")
     rep.add_tlc("C04.ArgVectors", gres)
     vecs = sorted({tuple(r["cls"]) for r in gres.records if r.get("kind") == "vec"}, key=lambda v: (len(v), v))
     if len(vecs) < 100:
